@@ -35,6 +35,15 @@ func isRefType(t types.Type) bool {
 	return false
 }
 
+func (g *Gen) assumeAllocatedIn(s string, t types.Type, al string) {
+	if isRefType(t) {
+		g.assume(fmt.Sprintf("(or (= %s 0) (select %s %s))", s, al, s))
+	}
+	if _, ok := t.Underlying().(*types.Slice); ok {
+		g.assume(fmt.Sprintf("(or (= (sarr %s) 0) (select %s (sarr %s)))", s, al, s))
+	}
+}
+
 func (g *Gen) assumeAllocated(s string, t types.Type) {
 	if isRefType(t) {
 		g.assume(fmt.Sprintf("(or (= %s 0) (select %s %s))", s, g.sv("$alloc", "(Array Int Bool)"), s))
@@ -144,7 +153,10 @@ func (g *Gen) run() {
 	entry := copyState(g.cur)
 	g.entryState = entry
 	if g.con != nil {
-		for _, c := range append(append([]*Clause{}, g.con.Requires...), g.con.Preserves...) {
+		for _, c := range g.con.Assumes {
+			g.assumedUsed["entry assumption of "+g.name+": "+c.Label+": "+c.Text+" (not checked at call sites)"] = true
+		}
+		for _, c := range append(append(append([]*Clause{}, g.con.Requires...), g.con.Preserves...), g.con.Assumes...) {
 			env := g.fnEnv(nil)
 			t, err := g.eval(c.Expr, env)
 			if err != nil {
@@ -457,6 +469,15 @@ func (g *Gen) loopHead(h *ssa.BasicBlock, k int, fpreds []*ssa.BasicBlock) {
 				g.setSV(n, srt, term)
 				continue
 			}
+			if g.loopLocalWrites(h, n) && !wild {
+				// every store of the loop to this heap goes to an object allocated inside the loop (or to a
+				// loop-invariant base that is listed): objects that existed at the loop head keep their value
+				oldv := g.sv(n, srt)
+				al := g.sv("$alloc", "(Array Int Bool)")
+				nv := g.havocSV(n, srt)
+				g.assumeRaw(fmt.Sprintf("(forall ((r Int)) (! (=> (select %s (rootof r)) (= (select %s r) (select %s r))) :pattern ((select %s r))))", al, nv, oldv, nv))
+				continue
+			}
 			if n == "$alloc" {
 				old := g.sv(n, srt)
 				nv := g.havocSV(n, srt)
@@ -635,7 +656,24 @@ func (g *Gen) instr(b *ssa.BasicBlock, idx int, ins ssa.Instruction) {
 	case *ssa.Convert:
 		g.convert(x)
 	case *ssa.ChangeType:
-		g.vals[x] = Term{S: g.term(x.X).S, Sort: g.term(x.X).Sort, T: x.Type()}
+		xt := g.term(x.X)
+		ds := g.sortOf(x.Type())
+		if ds != xt.Sort && strings.HasPrefix(ds, "S_") && strings.HasPrefix(xt.Sort, "S_") {
+			// struct types with identical underlying type but different datatype sorts: rebuild field-wise
+			if fs, ok := structOf(x.X.Type()); ok {
+				var parts []string
+				for i := 0; i < fs.NumFields(); i++ {
+					parts = append(parts, fmt.Sprintf("(%s!%s %s)", xt.Sort, fieldName(fs, i), xt.S))
+				}
+				g.define(x, fmt.Sprintf("(mk!%s %s)", ds, strings.Join(parts, " ")))
+				return
+			}
+		}
+		if ds != xt.Sort {
+			g.define(x, "")
+			return
+		}
+		g.vals[x] = Term{S: xt.S, Sort: xt.Sort, T: x.Type()}
 	case *ssa.ChangeInterface:
 		g.vals[x] = Term{S: g.term(x.X).S, Sort: "Int", T: x.Type()}
 	case *ssa.MakeInterface:
@@ -765,7 +803,12 @@ func (g *Gen) unop(x *ssa.UnOp) {
 		if v != "" {
 			g.assume(g.typeInv(t.S, x.Type()))
 		}
-		g.assumeAllocated(t.S, x.Type())
+		if cur, written := g.cur[a.Heap]; a.Heap != "" && (!written || cur == a.Heap+"!0") {
+			// the heap variable was never written: what it holds was allocated before the function started
+			g.assumeAllocatedIn(t.S, x.Type(), "$alloc!0")
+		} else {
+			g.assumeAllocated(t.S, x.Type())
+		}
 	case token.NOT:
 		g.define(x, not(g.term(x.X).S))
 	case token.SUB:
@@ -910,6 +953,8 @@ func (g *Gen) declFun(name, sig string) {
 		switch name {
 		case "bitor":
 			g.defs = append(g.defs, "(assert (forall ((a Int) (b Int)) (! (=> (and (>= a 0) (>= b 0)) (and (>= (bitor a b) a) (>= (bitor a b) b) (<= (bitor a b) (+ a b)))) :pattern ((bitor a b)))))")
+			// disjoint bit ranges: a is a multiple of 2^k and b < 2^k  =>  a | b == a + b   (k = 8, 16)
+			g.defs = append(g.defs, "(assert (forall ((a Int) (b Int)) (! (=> (and (>= a 0) (>= b 0) (or (and (< b 256) (= (mod a 256) 0)) (and (< b 65536) (= (mod a 65536) 0)))) (= (bitor a b) (+ a b))) :pattern ((bitor a b)))))")
 		case "bitand":
 			g.defs = append(g.defs, "(assert (forall ((a Int) (b Int)) (! (=> (and (>= a 0) (>= b 0)) (and (>= (bitand a b) 0) (<= (bitand a b) a) (<= (bitand a b) b))) :pattern ((bitand a b)))))")
 		}
@@ -1488,4 +1533,26 @@ func (g *Gen) loopInvariant(h *ssa.BasicBlock, v ssa.Value) bool {
 		return b != nil && !g.loopBody[h][b] && b.Dominates(h)
 	}
 	return false
+}
+
+// loopLocalWrites: all writes to heap n in the loop are single-location stores whose base object is
+// allocated inside the loop body.
+func (g *Gen) loopLocalWrites(h *ssa.BasicBlock, n string) bool {
+	if g.pass1 == nil || strings.HasPrefix(n, "$") || !(strings.HasPrefix(n, "H_") || strings.HasPrefix(n, "C_")) {
+		return false
+	}
+	any := false
+	for bb := range g.loopBody[h] {
+		if g.pass1.imprecise[bb][n] {
+			return false
+		}
+		for _, r := range g.pass1.storeRecs[bb][n] {
+			al, ok := r.baseVal.(*ssa.Alloc)
+			if !ok || al.Block() == nil || !g.loopBody[h][al.Block()] {
+				return false
+			}
+			any = true
+		}
+	}
+	return any
 }
